@@ -90,6 +90,12 @@ class Pools:
         for a in all_atoms(tbl):
             if not a.neutron.has_sld() and a.mass is not None and a.number > 0:
                 self.nodata.append(pyside.key_of(a)[:2])
+        # atoms whose σ_c = 4π|b_c|²/100 exceeds the tabulated σ_s: σ_i clips at 0
+        self.clip = []
+        for z, A in self.data:
+            n = pyside.atom_of((z, A, 0), tbl).neutron
+            if n.nsf_table is None and 4 * math.pi / 100 * abs(n.b_c_complex) ** 2 > n.total:
+                self.clip.append((z, A))
         self.ions = []
         for z, A in self.data:
             el = tbl[z]
@@ -101,11 +107,11 @@ class Pools:
         if r < nodata:
             z, A = rng.choice(self.nodata)
             return (z, A, 0)
-        kind = rng.choice(["common", "common", "element", "element", "isotope", "endep", "ion"])
+        kind = rng.choice(["common", "common", "element", "element", "isotope", "endep", "ion", "clip"])
         if kind == "ion":
             return rng.choice(self.ions)
         z, A = rng.choice(getattr(self, {"common": "common", "element": "elements",
-                                          "isotope": "isotopes", "endep": "endep"}[kind]))
+                                          "isotope": "isotopes", "endep": "endep", "clip": "clip"}[kind]))
         return (z, A, 0)
 
 
